@@ -49,6 +49,29 @@ func canonFP(arr, off, n *Term, depth int) *Term {
 			return canonFP(dst, off, n, depth+1)
 		}
 	}
+	return leafFP(arr, off, n)
+}
+
+// leafFP: fingerprint of a byte range that is not a copy. Short constant-length
+// ranges are fingerprinted through their packed contents (so that two arrays
+// with equal bytes in the range have equal fingerprints by congruence); longer
+// or symbolic-length ranges through the array itself.
+func leafFP(arr, off, n *Term) *Term {
+	if n.lit && n.val.IsInt64() && n.val.Int64() > 0 && n.val.Int64() <= 64 {
+		k := int(n.val.Int64())
+		var acc *Term
+		for i := 0; i < k; i++ {
+			b := SelectA(arr, BVAdd(off, BV(uint64(i), 64)))
+			if acc == nil {
+				acc = b
+			} else {
+				acc = Concat(acc, b)
+			}
+		}
+		name := fmt.Sprintf("fpk%d", k)
+		DeclareFun(name, []string{SBV(8 * k)}, SFP)
+		return App(name, SFP, acc)
+	}
 	return App("fpr", SFP, arr, off, n)
 }
 
@@ -143,6 +166,19 @@ func init() {
 		used(fr, "sha512.Sum512 (function of the input bytes)")
 		data := args[0].(SliceV)
 		return callResult{val: ArrV{A: ufBytes("sha512", fr.ex.fp(st, data)), N: 64, Elem: types.Typ[types.Uint8]}, st: st}
+	}
+	// btcec.PublicKey.SerializeCompressed (value receiver): 33 bytes that are a
+	// function of the key's coordinates
+	m["(github.com/decred/dcrd/dcrec/secp256k1/v4.PublicKey).SerializeCompressed"] = func(fr *Frame, fn *ssa.Function, args []Value, pc *Term, st *State, pos token.Pos, resT types.Type) callResult {
+		used(fr, "btcec.PublicKey.SerializeCompressed (33 bytes, a function of the key's coordinates)")
+		ex := fr.ex
+		n := BV(33, 64)
+		out := ex.allocSlice(st, types.Typ[types.Uint8], n, n, pc, "pubser")
+		if bits := flatBits(args[0]); bits != nil {
+			arr := ex.sliceArr(st, out, 0, SBV(8))
+			ex.setSliceArr(st, out, 0, CopyArr(arr, BV(0, 64), ufBytes("pubser", bits), BV(0, 64), n))
+		}
+		return callResult{val: out, st: st}
 	}
 	m["crypto/hmac.New"] = func(fr *Frame, fn *ssa.Function, args []Value, pc *Term, st *State, pos token.Pos, resT types.Type) callResult {
 		used(fr, "hmac.New/Write/Sum (MAC is a function of key and message)")
@@ -314,14 +350,14 @@ func (ex *Exec) cryptoSpec(name string, arg func(i int) Value, env *SpecEnv) (Va
 		// HKDF stream with an empty secret (Noise split): block j of (salt)
 		salt := arg(0).(ArrV)
 		DeclareFun("fpr", []string{SByteArr, SBV(64), SBV(64)}, SFP)
-		stream := ufBytes("hkdfbytes", BV(0, 256), App("fpr", SFP, salt.A, BV(0, 64), BV(32, 64)), BV(0, 256))
+		stream := ufBytes("hkdfbytes", BV(0, 256), leafFP(salt.A, BV(0, 64), BV(32, 64)), BV(0, 256))
 		a := CopyArr(ConstArr(SByteArr, BV(0, 8)), BV(0, 64), stream, BVMul(idx(1), BV(32, 64)), BV(32, 64))
 		return ArrV{A: a, N: 32, Elem: types.Typ[types.Uint8]}, true
 	case "sealpt2is":
 		// the plaintext of the i-th Seal were the two bytes b0 b1
 		arr := Store(Store(ConstArr(SByteArr, BV(0, 8)), BV(0, 64), arg(1).(IntV).T), BV(1, 64), arg(2).(IntV).T)
 		DeclareFun("fpr", []string{SByteArr, SBV(64), SBV(64)}, SFP)
-		return BoolV{Eq(Select(st.get("ghost|seal.pt", SArr(SBV(64), SFP)), idx(0)), App("fpr", SFP, arr, BV(0, 64), BV(2, 64)))}, true
+		return BoolV{Eq(Select(st.get("ghost|seal.pt", SArr(SBV(64), SFP)), idx(0)), leafFP(arr, BV(0, 64), BV(2, 64)))}, true
 	case "sealad32is", "openad32is":
 		// the associated data of the i-th Seal/Open were the 32 bytes d
 		k := "seal"
@@ -330,6 +366,23 @@ func (ex *Exec) cryptoSpec(name string, arg func(i int) Value, env *SpecEnv) (Va
 		}
 		d := arg(1).(ArrV)
 		return BoolV{Eq(Select(st.get("ghost|"+k+".ad", SArr(SBV(64), SFP)), idx(0)), canonFP(d.A, BV(0, 64), BV(32, 64), 0))}, true
+	case "sha256catpub":
+		// sha256catpub(d, key): SHA-256 of d followed by the compressed serialisation of key
+		d := arg(0).(ArrV)
+		kp := arg(1).(PtrV)
+		ex.dry++
+		ex.inSpec++
+		kv := ex.load(st, kp, nil, True, token.NoPos)
+		ex.dry--
+		ex.inSpec--
+		bits := flatBits(kv)
+		if bits == nil {
+			panic("contract: sha256catpub of a key whose value cannot be flattened")
+		}
+		DeclareFun("fpcat", []string{SFP, SFP}, SFP)
+		f := App("fpcat", SFP, canonFP(d.A, BV(0, 64), BV(32, 64), 0), canonFP(ufBytes("pubser", bits), BV(0, 64), BV(33, 64), 0))
+		a := CopyArr(ConstArr(SByteArr, BV(0, 8)), BV(0, 64), ufBytes("sha256", f), BV(0, 64), BV(32, 64))
+		return ArrV{A: a, N: 32, Elem: types.Typ[types.Uint8]}, true
 	case "sha256cat":
 		// sha256cat(d, data): SHA-256 of the 32 bytes d followed by data (mixHash)
 		d, data := arg(0).(ArrV), arg(1).(SliceV)
@@ -349,10 +402,58 @@ func (ex *Exec) cryptoSpec(name string, arg func(i int) Value, env *SpecEnv) (Va
 	case "hkdf32":
 		secret, salt := arg(0).(ArrV), arg(1).(ArrV)
 		DeclareFun("fpr", []string{SByteArr, SBV(64), SBV(64)}, SFP)
-		stream := ufBytes("hkdfbytes", App("fpr", SFP, secret.A, BV(0, 64), BV(32, 64)), App("fpr", SFP, salt.A, BV(0, 64), BV(32, 64)), BV(0, 256))
+		stream := ufBytes("hkdfbytes", leafFP(secret.A, BV(0, 64), BV(32, 64)), leafFP(salt.A, BV(0, 64), BV(32, 64)), BV(0, 256))
 		blk := idx(2)
 		a := CopyArr(ConstArr(SByteArr, BV(0, 8)), BV(0, 64), stream, BVMul(blk, BV(32, 64)), BV(32, 64))
 		return ArrV{A: a, N: 32, Elem: types.Typ[types.Uint8]}, true
 	}
 	return nil, false
+}
+
+// flatBits concatenates all scalar components of a by-value struct/array into
+// one bit-vector (nil if the value has a component that is not a scalar).
+func flatBits(v Value) *Term {
+	var acc *Term
+	add := func(t *Term) {
+		if acc == nil {
+			acc = t
+		} else {
+			acc = Concat(acc, t)
+		}
+	}
+	var walk func(v Value) bool
+	walk = func(v Value) bool {
+		switch x := v.(type) {
+		case IntV:
+			add(x.T)
+		case BoolV:
+			add(Ite(x.T, BV(1, 8), BV(0, 8)))
+		case ArrV:
+			if x.N > 64 {
+				return false
+			}
+			for i := int64(0); i < x.N; i++ {
+				add(SelectA(x.A, BV(uint64(i), 64)))
+			}
+		case GoArrV:
+			for _, e := range x.E {
+				if !walk(e) {
+					return false
+				}
+			}
+		case StructV:
+			for _, f := range x.F {
+				if !walk(f) {
+					return false
+				}
+			}
+		default:
+			return false
+		}
+		return true
+	}
+	if !walk(v) || acc == nil {
+		return nil
+	}
+	return acc
 }
